@@ -110,6 +110,12 @@ fn main() {
         }
         part.run(&mut run);
     }
+    // thorough tier: coverage-guided deepening with the same oracles (DESIGN.md 2.7)
+    if tier == Tier::Thorough && std::env::var("RSV_NO_FUZZ").is_err() {
+        for (target, runs) in rsv::fuzz::targets_for(def.id) {
+            rsv::fuzz::campaign(&mut run, target, runs);
+        }
+    }
     std::process::exit(run.finish());
 }
 
